@@ -405,3 +405,57 @@ pub fn clone_vec<T: Clone>(s: &[T]) -> Vec<T> {
     }
     v
 }
+
+// ---- single-threaded stand-in for std::sync::RwLock (MemStorage) -------------------------
+pub struct VLock<T> {
+    v: std::cell::UnsafeCell<T>,
+}
+unsafe impl<T: Send> Send for VLock<T> {}
+unsafe impl<T: Send> Sync for VLock<T> {}
+impl<T: Default> Default for VLock<T> {
+    fn default() -> Self {
+        VLock { v: std::cell::UnsafeCell::new(T::default()) }
+    }
+}
+/// mimics `LockResult` without an enum: `.unwrap()` just hands out the guard
+pub struct VLocked<G>(G);
+impl<G> VLocked<G> {
+    pub fn unwrap(self) -> G {
+        self.0
+    }
+}
+pub struct VReadGuard<'a, T> {
+    r: &'a T,
+}
+pub struct VWriteGuard<'a, T> {
+    r: &'a mut T,
+}
+impl<T> VLock<T> {
+    pub fn new(t: T) -> Self {
+        VLock { v: std::cell::UnsafeCell::new(t) }
+    }
+    pub fn read(&self) -> VLocked<VReadGuard<'_, T>> {
+        VLocked(VReadGuard { r: unsafe { &*self.v.get() } })
+    }
+    #[allow(clippy::mut_from_ref)]
+    pub fn write(&self) -> VLocked<VWriteGuard<'_, T>> {
+        VLocked(VWriteGuard { r: unsafe { &mut *self.v.get() } })
+    }
+}
+impl<T> std::ops::Deref for VReadGuard<'_, T> {
+    type Target = T;
+    fn deref(&self) -> &T {
+        self.r
+    }
+}
+impl<T> std::ops::Deref for VWriteGuard<'_, T> {
+    type Target = T;
+    fn deref(&self) -> &T {
+        self.r
+    }
+}
+impl<T> std::ops::DerefMut for VWriteGuard<'_, T> {
+    fn deref_mut(&mut self) -> &mut T {
+        self.r
+    }
+}
